@@ -139,6 +139,8 @@ func (c *Ctx) c01Accessors() {
 		c.perInvocationCopy("R8", copyFn)
 	}
 	c.positionalSplitRule("R10")
+	r.Rule("R11", "a handler registered for the verb is found whatever letter case either side used and however late it was registered: every map of the handler set is keyed by lower-cased names (= C04.R1) and each dispatch walks a list snapshot built afresh under the set's lock (= C05.R5), never a cached one")
+	c.handlerKeysRule("R11")
 	pub := c.Func(c.Client, "(*Line).Public")
 	tgt := c.Func(c.Client, "(*Line).Target")
 	if !r.Anchor("R9", "(*Line).Public, (*Line).Target", pub != nil && tgt != nil) {
